@@ -1,5 +1,6 @@
 """C08 - public keys are accepted iff they encode a valid point of the right group."""
 import hashlib
+import pickle
 
 import ecdsa
 from ecdsa import der
@@ -39,6 +40,10 @@ def shards(tier, seed):
         out.append(("toy_%d" % i, dict(kind="toy", part=i, parts=4 if q else 16, pmax=23 if q else 31, ncurves=3 if q else 12)))
     for p_ in (1013, 1009, 1019, 65537) if q else (1013, 1009, 1019, 2029, 2017, 65537, 65521, 1000003):
         out.append(("mid_p%d" % p_, dict(kind="mid", p=p_)))
+    # the same contracts with assert statements stripped (python -O): validation must not rest on an assert in a constructor
+    out.append(("child_prod_NIST192p", dict(kind="prod", cname="NIST192p", nvalid=3, lz=False, _pyopt="opt")))
+    out.append(("child_prod_SECP112r2", dict(kind="prod", cname="SECP112r2", nvalid=3, lz=False, _pyopt="opt+hashseed")))
+    out.append(("child_toy", dict(kind="toy", part=0, parts=4, pmax=19, ncurves=2, _pyopt="opt")))
     return out
 
 
@@ -264,6 +269,19 @@ def run(ctx, name, kind, **kw):
         # invalid point objects
         bad = PointJacobi(cfp, x, (y + 1) % p, 1, n)
         judge_object(ctx, c, dom, bad, (x, (y + 1) % p), "object.invalid", c.name + "|off")
+        # the legacy class checks the equation in its constructor with an assert statement: objects that did not go through it
+        # (restored from a pickle / copy with other state, or built under python -O) can be off the curve; validation is on here
+        import copy as _copy
+        for dy in (1, 2):
+            lg = _copy.copy(Point(cfp, x, y, n))
+            lg.__dict__["_Point__y"] = (y + dy) % p
+            judge_object(ctx, c, dom, lg, (x, (y + dy) % p), "object.invalid", c.name + "|off|legacy_restored")
+            lg2 = pickle.loads(pickle.dumps(Point(cfp, x, y)).replace(pickle.dumps(y)[2:-1], pickle.dumps((y + dy) % p)[2:-1])) if y > 300 and (y + dy) % p > 300 else None
+            if lg2 is not None and lg2.y() == (y + dy) % p:
+                ctx.count("tampered_pickle_points")
+                judge_object(ctx, c, dom, lg2, (x, (y + dy) % p), "object.invalid", c.name + "|off|legacy_tampered_pickle")
+        if not __debug__:
+            judge_object(ctx, c, dom, Point(cfp, x, (y + 1) % p), (x, (y + 1) % p), "object.invalid", c.name + "|off|legacy_constructed")
         # point objects that live on ANOTHER curve object: same field, other b (the classic invalid-curve point), and another named curve
         for db in (1, 2):
             b2 = (cv.b + db) % p
